@@ -11,8 +11,8 @@
 (* Finish(group) that selects a group of invocations run on the same       *)
 (* location sequence (e.g. -I t then -N t; --largest then its output fed   *)
 (* back).  Shapes bounds which alphabet class may stand at which position. *)
-(* hwloc-distrib, lstopo: one action each from the initial state.          *)
-(* Every Finish / Distrib / Lstopo edge whose hash falls in the stripe is  *)
+(* hwloc-distrib: one action from the initial state (lstopo has a model of *)
+(* its own, MC_Lstopo.tla).  Every Finish / Distrib edge in the stripe is  *)
 (* printed for the recorder.                                               *)
 (***************************************************************************)
 EXTENDS Calc, Json, SequencesExt
@@ -20,7 +20,8 @@ EXTENDS Calc, Json, SequencesExt
 CONSTANTS TopoFile,      \* ndjson file with one Topo event
           Shapes,        \* set of sequences of class names: which tokens may stand at position k
           NStripes, Stripe,
-          WithOther      \* also enumerate hwloc-distrib / lstopo command lines
+          WithOther,     \* also enumerate hwloc-distrib command lines
+          WithStdin      \* also enumerate the groups that give the locations on the standard input
 VARIABLES toks, ids, st, phase, grp
 
 TE == ndJsonDeserialize(TopoFile)[1]
@@ -86,6 +87,9 @@ NamedLocs == {[k |-> "pci=", s |-> BusId(O(T, LObjs(T, -5)[j])), op |-> ""] : j 
 BadStrings == {"foo:1", "core", "core:", "core:x", "core:1.", "core:1.pu", ":1", "pack:0..pu:1", "core:1-2-3", "core[:1", "numa[hbm:0",
                "0xzz", "core:0:", "core:1:2:3", "core:3-1", "core:0:-1", "core:1--3", "pu:2-0", "all:0", "root:1", "pu:all:1", "core:1,2",
                "0xf...g", "pci=zz", "os=", "core:+1", "core: 1", "1,2,,x", "pu:0:-2"}
+\* index words longer than any index (and than the 64 characters a cautious parser may allow): they add nothing, whether the
+\* tool refuses them or reads them as indexes that do not exist - not with "x", where nothing and no location differ
+LongLocs == {[k |-> "bad", s |-> s, op |-> ""] : s \in {"core:" \o BS!Rep("9", 65), "pu:" \o BS!Rep("9", 64), "pu:" \o BS!Rep("9", 80) \o "-"}}
 BadLocs == {[k |-> "bad", s |-> s, op |-> ""] : s \in BadStrings}
 AllRoot == {[k |-> "all", op |-> ""], [k |-> "root", op |-> ""]}
 
@@ -106,20 +110,31 @@ Small == LET pu == LvName(T.depth - 1)  d1 == IF T.depth > 2 THEN 1 ELSE 0  top 
   WithOp({Obj(<<Lk(pu, R2("span", 1, 2))>>), Obj(<<Lk(top, R1("one", Width(d1) - 1))>>), Obj(<<Lk("numa", R1("one", 0))>>),
           Raw("list", BS!Render("list", VFin(PUos \ Lowest(PUos, 1)))), [k |-> "all", op |-> ""]}, {"", "~", "x", "^"})
   \cup {[k |-> "bad", s |-> "foo:1", op |-> ""]}
+\* locations with long outputs on a wide topology: every other PU (as many ranges as objects), nearly all PUs, and the same
+\* sets given as long set strings in every format
+AltPUs == {O(T, LObjs(T, T.depth - 1)[k]).os : k \in {k \in 1..Width(T.depth - 1) : k % 2 = 1}}
+WideLocs == LET pu == LvName(T.depth - 1)  w == Width(T.depth - 1) IN
+  {Obj(<<Lk(pu, R1("odd", 0))>>), Obj(<<Lk(pu, R1("even", 0))>>), Obj(<<Lk(pu, R1("all", 0))>>), Obj(<<Lk(pu, R2("span", 1, w - 2))>>),
+   Obj(<<Lk(pu, R2("cnt", w - 1, w - 1))>>), Obj(<<Lk("numa", R1("all", 0)), Lk(pu, R1("odd", 0))>>),
+   Obj(<<Lk("numa", R1("one", Width(-3) - 1)), Lk(pu, R1("from", 1))>>), [k |-> "all", op |-> ""]}
+  \cup {Raw(f, BS!Render(f, VFin(AltPUs))) : f \in BS!Fmts}
+  \cup {Raw("list", BS!Variant("list", VFin(PUos), "single")), Raw("hwloc", BS!Variant("hwloc", VFin(AltPUs), "upper"))}
 Class(c) == CASE c = "A" -> WithOp(AllLocs, {""})
+              [] c = "W" -> WithOp(WideLocs, {""}) \cup WithOp({Obj(<<Lk(LvName(T.depth - 1), R1("even", 0))>>), Raw("list", BS!Render("list", VFin(AltPUs)))}, {"~", "^"})
               [] c = "m" -> Small
               [] c = "B" -> WithOp(AllLocs \ AllRoot, {"~", "x", "^"})
               [] c = "all" -> {[k |-> "all", op |-> ""]}
               [] c = "M" -> Mid
               [] c = "O" -> OptToks
               [] c = "X" -> WithOp(BadLocs, {"", "~", "x", "^"})
+              [] c = "L" -> WithOp(LongLocs, {"", "~", "^"})
               [] c = "P" -> WithOp({l \in SingleLocs \cup PairLocs : l.chain[Len(l.chain)].r.rk \in {"all", "odd", "even", "from", "span", "one", "cnt"}}, {""})
               [] c = "R" -> WithOp(RawLocs, {"", "^"})
               \* a slice of P for the quick tier: canonical names, five ranges per level, two chains per pair
               [] c = "p" -> WithOp({l \in SingleLocs : /\ \E d \in UsedDepths : l.chain[1].tn = LvName(d)
                                                        /\ l.chain[1].r \in {R1("one", 1), R2("span", 0, 1), R1("all", 0), R1("from", 1), R1("odd", 0)}}
                                    \cup {l \in PairLocs : <<l.chain[1].r, l.chain[2].r>> \in {<<R1("all", 0), R1("all", 0)>>, <<R1("one", 0), R1("from", 1)>>}}, {""})
-Classes == {"A", "B", "all", "M", "m", "O", "X", "P", "p", "R"}
+Classes == {"A", "B", "all", "M", "m", "O", "X", "P", "p", "R", "W", "L"}
 Alpha == [c \in Classes |-> SetToSeq(Class(c))]
 
 (* ------------------------------ mode groups ---------------------------- *)
@@ -147,7 +162,17 @@ Groups ==
 \cup {<<MBad(av)>> : av \in {<<"--bogus">>, <<"-Z">>, <<"--cof", "bogus">>, <<"--cof">>, <<"--cif", "foo">>, <<"--cif">>, <<"-I">>, <<"-N">>, <<"-H">>,
                              <<"--sep">>, <<"--restrict", "0x1">>, <<"--disallowed">>, <<"--cif", "systemd-dbus-api">>, <<"--largest", "--intersect">>,
                              <<"--number-of">>, <<"--hierarchical">>, <<"--cpuset-output-format">>, <<"--nodeset-output-format", "x">>}}
+\* standard input: line lengths around the powers of two a line buffer is likely to have, natural length (0) and far beyond
+MStdin(f, q, pad) == [m |-> "stdin", f |-> f, q |-> q, pad |-> pad, pre |-> FALSE]
+StdinPads == {0, 1000} \cup UNION {{p - 2, p - 1, p, p + 1} : p \in {64, 128, 256}}
+StdinGroups == {<<MStdin("", q, pad)>> : q \in BOOLEAN, pad \in StdinPads}
+               \cup {<<MStdin("list", TRUE, 0)>>, <<MStdin("taskset", FALSE, 127)>>, <<MStdin("list", FALSE, 63)>>}
 GroupSeq == SetToSeq(Groups)
+StdinSeq == IF WithStdin THEN SetToSeq(StdinGroups) ELSE <<>>
+\* group numbers: 1..Len(GroupSeq) the command-line groups, then the standard-input groups (numbered apart, so that the
+\* stripes of the former do not depend on the latter)
+NGroups == Len(GroupSeq) + Len(StdinSeq)
+GroupAt(g) == IF g <= Len(GroupSeq) THEN GroupSeq[g] ELSE StdinSeq[g - Len(GroupSeq)]
 
 (* --------------------------- other tools ------------------------------- *)
 DM(n, single, f, from, to, rev, extra) == [n |-> n, single |-> single, f |-> f, from |-> from, to |-> to, reverse |-> rev, extra |-> extra]
@@ -187,8 +212,20 @@ BadA == phase = "loc" /\ \E c \in NextClasses : \E i \in DOMAIN Alpha[c] : Take(
 RECURSIVE IdSum(_)
 IdSum(s) == IF s = <<>> THEN 7 ELSE (Head(s)[2] * 31 + Len(Head(s)[1]) * 7 + 13 * IdSum(Tail(s))) % 1000003
 InStripe(g) == (IdSum(ids) * 17 + g * 101) % NStripes = Stripe
+\* Not generated: a long hexadecimal set string read as a list because --cif list is in force.  hwloc-calc(1) makes that a
+\* list of numbers, "0x55555555" is index 1431655765, and the correct output is a set string of hundreds of megabytes
+\* (minutes of printing): nothing the tool does wrong, and nothing the recorder can hold (its output cap and its watchdog
+\* would be taken for a crash).  Short strings (indexes up to a few thousand) are generated.
+RECURSIVE GiantScan(_, _)
+GiantScan(cif, ts) ==
+  IF ts = <<>> THEN FALSE
+  ELSE LET tk == Head(ts) IN
+       IF tk.k = "cif" THEN GiantScan(tk.f, Tail(ts))
+       ELSE (cif = "list" /\ tk.k = "raw" /\ tk.f # "list" /\ Len(tk.s) > 64) \/ GiantScan(cif, Tail(ts))
 FinishA == /\ phase = "loc" /\ Complete
-           /\ \E g \in DOMAIN GroupSeq : InStripe(g) /\ grp' = g
+           /\ \E g \in 1..NGroups : /\ InStripe(g)
+                                    /\ ~GiantScan("", IF g > Len(GroupSeq) THEN StdinOrder(toks) ELSE toks)
+                                    /\ grp' = g
            /\ phase' = "done" /\ UNCHANGED <<toks, ids, st>>
 DistribA == /\ WithOther /\ phase = "loc" /\ toks = <<>>
             /\ \E g \in DOMAIN DistribSeq : (g * 101) % NStripes = Stripe /\ grp' = g
@@ -197,7 +234,7 @@ Next == AddA \/ ClrA \/ AndA \/ XorA \/ OptA \/ BadA \/ FinishA \/ DistribA
 Spec == Init /\ [][Next]_vars
 
 (* ------------------------------ invariants ----------------------------- *)
-ASSUME \A g \in DOMAIN GroupSeq : \A k \in DOMAIN GroupSeq[g] : ModeOK(GroupSeq[g][k])
+ASSUME \A g \in 1..NGroups : \A k \in DOMAIN GroupAt(g) : ModeOK(GroupAt(g)[k])
 Live == phase = "loc"          \* the laws are evaluated once per token sequence
 TypeOK == Live => /\ \A k \in DOMAIN toks : TokOK(toks[k])
                   /\ st.li \in BOOLEAN /\ st.ni \in BOOLEAN /\ st.n \in 0..Len(toks) /\ st.cif \in BS!Fmts \cup {""}
@@ -209,6 +246,13 @@ FoldOK == Live => st = Run(T, St0, toks)
 Inside == (Live /\ st.det /\ \A k \in DOMAIN toks : toks[k].k \in {"obj", "all", "root", "opt", "pci=", "os="}) => VSub(st.cs, VR(T.tcs)) /\ VSub(st.ns, VR(T.tns))
 \* LargestRel is satisfiable: the greedy cover from the root is accepted
 LargestLaw == (Live /\ st.det /\ VSub(st.cs, VR(T.tcs))) => LargestRel(T, st.cs, LargestDo(T, 1, st.cs))
+\* the two formulations of LargestRel agree: on the witness, and on answers that break one clause each (an object missing,
+\* the root added, an object replaced by its children, the PUs instead of the objects)
+LargestProbes == LET w == LargestDo(T, 1, st.cs)
+                     x == IF w = {} THEN 1 ELSE CHOOSE p \in w : TRUE
+                 IN {w, w \ {x}, w \cup {1}, (w \ {x}) \cup SeqSet(O(T, x).kids),
+                     {p \in SeqSet(LObjs(T, T.depth - 1)) : VMeets(OCS(T, p), st.cs)}}
+LargestEq == (Live /\ st.det /\ VSub(st.cs, VR(T.tcs))) => \A objs \in LargestProbes : LargestRel(T, st.cs, objs) = LargestRelRef(T, st.cs, objs)
 \* every object of a -H chain is one that -I lists
 HLaw == Live => \A c \in HChains : HDet(T, c) =>
           LET ds == [k \in DOMAIN c |-> LevelOfName(T, c[k]).d]
@@ -231,9 +275,10 @@ F3Scan(li, ts) ==
 F3Prone == F3Scan(TRUE, toks)
 
 (* ------------------------------- emission ------------------------------ *)
-Invs(g) == [k \in DOMAIN GroupSeq[g] |->
-              [mode |-> GroupSeq[g][k],
-               argv |-> IF GroupSeq[g][k].m \in {"fbL", "fbH"} THEN <<>> ELSE CmdArgv(toks, GroupSeq[g][k], <<>>)]]
+Invs(g) == [k \in DOMAIN GroupAt(g) |->
+              [mode |-> GroupAt(g)[k],
+               argv |-> IF GroupAt(g)[k].m \in {"fbL", "fbH"} THEN <<>> ELSE CmdArgv(toks, GroupAt(g)[k], <<>>),
+               stdin |-> IF GroupAt(g)[k].m = "stdin" THEN StdinText(toks, GroupAt(g)[k]) ELSE ""]]
 EmitEdge ==
   /\ (phase' = "done") =>
         PrintT(<<"CALC", ToJson([toks |-> toks, cls |-> IF F3Prone THEN "f3" ELSE "", invs |-> Invs(grp')])>>)
